@@ -255,7 +255,19 @@ def run_check(prop: str, tier: str, batch_seed: int, runs_override=None) -> int:
     known_hit = {}
     digests = set()
     ctx = multiprocessing.get_context('fork')
-    with ProcessPoolExecutor(max_workers=workers, mp_context=ctx) as ex:
+    # workers leave through os._exit (no atexit handlers): their scratch directories live under one directory of the batch,
+    # which the parent removes when the pool is gone
+    import tempfile
+    import shutil
+    old_tempdir = tempfile.tempdir
+    batch_tmp = tempfile.mkdtemp(prefix='skverif-batch-')
+    tempfile.tempdir = batch_tmp          # inherited by the forked workers; nothing is drawn from any PRNG for this
+    try:
+        ex = ProcessPoolExecutor(max_workers=workers, mp_context=ctx)
+    except Exception:
+        tempfile.tempdir = old_tempdir
+        raise
+    with ex:
         pending = set()
         it = iter(tasks)
         try:
@@ -293,6 +305,8 @@ def run_check(prop: str, tier: str, batch_seed: int, runs_override=None) -> int:
             traceback.print_exc()
             for f in pending:
                 f.cancel()
+    tempfile.tempdir = old_tempdir
+    shutil.rmtree(batch_tmp, ignore_errors=True)
 
     # ---- violations: known-finding filter, minimise, fresh-process confirmation
     known = [k for k in load_known() if k.get('property') == prop and k.get('status') == 'known']
